@@ -95,7 +95,7 @@ def run(tier):
                        "z": [], "ex": []})
         if m == "rs":   # "identical" must not mean "identically wrong": the coloured run is also judged by Obs_Stream
             ev, rows = stream.run_event(len(sevents), h, texts, rc_, {"keep": False, "tabs": 8, "colorOnly": False,
-                                                                      "buf": 32, "hhFile": True}, skin={})
+                                                                      "buf": 32, "hhFile": True, "rel": False}, skin={})
             for ln, t in zip(ev["lines"], ctexts):
                 ln["bid"] = ev["lines"][0]["bid"] if False else ln["bid"]
             sevents.append(ev)
